@@ -481,8 +481,19 @@ package raft
 //@ property C01
 
 // ---- winning an election: only with a majority of granted votes, only as a candidate of this term ----
+//@ func (pr *Progress) becomeReplicate()
+//@   trusted progress bookkeeping of one follower
+//@   modifies *pr
+//@ func (l *raftLog) entries(i uint64, maxsize uint64) ([]pb.Entry, error)
+//@   trusted log read
+//@ func numOfPendingConf(ents []pb.Entry) int
+//@   trusted counts configuration entries
+//@ func (r *raft) appendEntry(es ...pb.Entry)
+//@   trusted appends to the leader's own log and advances its own progress / commit; term, vote, role, identity, membership and the outbox are not touched
+//@   ensures old(stepKeeps(r)) ==> stepKeeps(r)
+//@   modifies alloftype(raftLog), alloftype(unstable), alloftype(Progress)
 //@ func (r *raft) becomeLeader()
-//@   trusted progress bookkeeping and the empty-entry append are not verified; what matters for the election is stated
+//@   opt only=POST
 //@   requires stepKeeps(r) && r.state != StateFollower
 //@   ensures stepKeeps(r) && r.Term == old(r.Term) && r.Vote == old(r.Vote) && r.state == StateLeader && r.lead == r.id && r.id == old(r.id) && r.isLearner == old(r.isLearner)
 //@   ensures len(r.msgs) == old(len(r.msgs)) && sameSlice(r.msgs, old(r.msgs)) && r.prs == old(r.prs) && len(r.prs) == old(len(r.prs))
